@@ -24,7 +24,7 @@ from vsim.tape import Tape, mix
 from vsim.world import World, diff_snapshots
 
 ID = "C08"
-RUNS = {"quick": 160, "thorough": 2400}
+RUNS = {"quick": 224, "thorough": 2400}
 WALL = {"quick": 3600, "thorough": 8 * 3600}
 OP_TIMEOUT = 300
 MIN_BUDGET = 36
